@@ -51,7 +51,7 @@ func (db *OptimisticTransactionDB) TransactionBegin(
 	oldTransaction *Transaction,
 ) *Transaction {
 	setSnapshot := transactionOpts != nil && transactionOpts.setSnapshot
-	return beginTransaction(db.m, oldTransaction, false, 0, setSnapshot)
+	return beginTransaction(db.m, oldTransaction, opts, false, 0, setSnapshot)
 }
 
 // NewCheckpoint creates a new Checkpoint for this db.
@@ -61,6 +61,9 @@ func (db *OptimisticTransactionDB) NewCheckpoint() (cp *Checkpoint, err error) {
 
 // Write batch.
 func (db *OptimisticTransactionDB) Write(opts *WriteOptions, batch *WriteBatch) (err error) {
+	if err := checkWriteOptions(opts); err != nil {
+		return err
+	}
 	return db.m.apply(batch.ops)
 }
 
